@@ -9,6 +9,7 @@
      Write n      only for an authenticated peer
      Close        station closed the connection: only after the deadline, after the peer closed, or when relaying
      Return       the handler returned
+     Swept        the expiry sweeper removed the matched registration right after the matching verdict (before MarkActive)
      Final        what reached the covert / came back / registration state
    Silent steps: running out of transports (read -> drain) and the found -> relay step. *)
 EXTENDS Classify, Json, TLCExt
@@ -25,6 +26,7 @@ TraceInit == /\ c = NoCase
              /\ rcvd = 0 /\ sent = 0 /\ readn = 0 /\ written = 0
              /\ dlSet = FALSE /\ expired = FALSE /\ peerClosed = FALSE
              /\ matched = None /\ consumed = 0 /\ used = FALSE /\ returned = FALSE
+             /\ swept = FALSE /\ regLock = "free"
              /\ obs = [a |-> "Init"]
              /\ l = 1
 TraceStart == /\ l <= Len(TraceLog) /\ TraceLog[l].a = "Start"
@@ -33,12 +35,13 @@ TraceStart == /\ l <= Len(TraceLog) /\ TraceLog[l].a = "Start"
               /\ rcvd' = 0 /\ sent' = 0 /\ readn' = 0 /\ written' = 0
               /\ dlSet' = FALSE /\ expired' = FALSE /\ peerClosed' = FALSE
               /\ matched' = None /\ consumed' = 0 /\ used' = FALSE /\ returned' = FALSE
+              /\ swept' = FALSE /\ regLock' = "free"
               /\ obs' = [a |-> "Init"]
               /\ l' = l + 1
 
 FinalOK(e) ==
   IF matched # None
-    THEN /\ e.matched = matched /\ e.matched_reg = c.reg /\ e.used
+    THEN /\ e.matched = matched /\ e.matched_reg = c.reg /\ e.used = ~swept
          /\ (e.want_n > 0 => (e.fwd_ok /\ e.reply_ok /\ e.covert_conns = 1))
     ELSE /\ e.matched = "" /\ e.covert_conns = 0 /\ e.to_peer = 0
          /\ (c.terr \/ e.unread = 0)
@@ -55,12 +58,13 @@ TraceStep ==
                                  \/ (HDrain /\ obs'.a = "Read" /\ obs'.n = e.n)
                                  \/ (HRelayRead /\ obs'.n = e.n)
                                  \/ (phase \in {"offer", "found"} /\ Authenticated /\ avail >= e.n /\ readn' = readn + e.n
-                                     /\ UNCHANGED <<c, phase, alive, todo, rcvd, sent, written, dlSet, expired, peerClosed, matched, consumed, used, returned, obs>>)
+                                     /\ UNCHANGED <<swept, regLock, c, phase, alive, todo, rcvd, sent, written, dlSet, expired, peerClosed, matched, consumed, used, returned, obs>>)
        [] e.a = "Verdict"     -> HOffer(e.t) /\ obs'.r = e.r /\ obs'.n = e.n /\ (e.r = "match" => e.left = rcvd - c.H)
        [] e.a = "Write"       -> (HWrite \/ (Authenticated /\ written >= MaxW /\ Unch))
        [] e.a = "Close"       -> (phase \in {"relay", "returned"} \/ expired \/ peerClosed) /\ Unch
        [] e.a = "Return"      -> ~e.hung /\ (\/ (HRead /\ obs'.a = "Return") \/ (HDrain /\ obs'.a = "Return")
                                             \/ HSleep \/ HRelayReturn)
+       [] e.a = "Swept"       -> SweepRemoves
        [] e.a = "Final"       -> returned /\ FinalOK(e) /\ Unch
        [] OTHER               -> FALSE
 Silent == /\ UNCHANGED l
